@@ -11,6 +11,7 @@ CONSTANTS
   SpecialCids = {}
   Journal = FALSE
   Fork = FALSE
+  UserSer = FALSE
   DumpFile = FALSE
   VersionedCids = {}
   QuietCids = {}
